@@ -75,13 +75,21 @@ def run(rep, idx, tier):
     # ---- segments -----------------------------------------------------------------------------
     segs = {}
     outer = None
+    other_shape = False
     for d in gd:
         what = f"grant <= {c.show(d.value)}"
         v = c.norm(d.value)
         loops = [fr[1] for fr in d.gen if fr[0] == 'for']
         if v[0] != 'idx' or v[1] not in loops or len(loops) != 2 or any(fr[0] == 'pyif' for fr in d.gen):
-            rep.bad("C09.3", site, what, "grant is written outside the round-robin encoder (value is not the index of a "
-                    "requesting initiator found by an inner loop)", line=d.lineno)
+            if v[0] in ('idx', 'const', 'sig', 'attr', 'name'):
+                rep.bad("C09.3", site, what, "grant is written outside the round-robin encoder (value is not the index of a "
+                        "requesting initiator found by an inner loop)", line=d.lineno)
+            else:
+                # a computed successor (a chain of Mux over the candidates, modular arithmetic on the owner index ...): another
+                # encoder shape, which the segment abstraction does not cover
+                other_shape = True
+                rep.unk("C09.3", site, what, "the granted value is computed by an expression (not the candidate index of an inner loop): "
+                        "an encoder of another shape, whose priority order is not derived")
             continue
         Li, Lj = loops[0], loops[1]
         if v[1] != Lj:
@@ -112,7 +120,10 @@ def run(rep, idx, tier):
         segs.setdefault((Li, Lj), []).append(d)
 
     if not segs:
-        rep.bad("C09.1", site, "round-robin encoder", "no grant update of the expected shape")
+        if other_shape:
+            rep.unk("C09.1", site, "round-robin encoder", "no grant update of the two-loop shape; the encoder that is there is not derived")
+        else:
+            rep.bad("C09.1", site, "round-robin encoder", "no grant update of the expected shape")
         return
     if len({k[0] for k in segs}) != 1:
         rep.unk("C09.1", site, "round-robin encoder", "grant updates are spread over several owner loops")
